@@ -42,7 +42,7 @@ PLAN["C04"] = {
 }
 
 MANIFEST_TEXT["C04"] = {
-    "technique": "property-based testing (rapid): generated function calls, expression trees and templates against a no-panic/returns oracle with watchdog and isolated re-run",
+    "technique": "property-based testing (rapid): generated function calls, expression trees and templates against a no-panic/returns oracle with watchdog and isolated re-run; thorough tier adds a coverage-guided native go-fuzz campaign (FuzzTemplate) with the same oracle",
     "level_text": "Exploration: millions of generated calls/templates per run all returned without panic within the watchdog; says nothing about inputs not generated. Right level because totality quantifies over an unbounded input space with no finite abstraction.",
     "level_note": "Trusts the Go runtime's panic recovery, the 15 s watchdog as a proxy for 'returns', and that legitimately huge results (repeat > 1e6 chars, powers of powers) may be excluded and counted.",
     "design_ref": "DESIGN.md section 3 / C04",
@@ -63,7 +63,7 @@ PLAN["C12"] = {
     "assumptions": COMMON_ASSUMPTIONS + ["strconv.Quote is the quoting the implementation itself uses to print literals (TextLiteral.String)"],
 }
 MANIFEST_TEXT["C12"] = {
-    "technique": "property-based testing (rapid): templates built from segments with a by-construction expected rendering; round-trip oracle quote -> scan -> lex -> unquote",
+    "technique": "property-based testing (rapid): templates built from segments with a by-construction expected rendering; round-trip oracle quote -> scan -> lex -> unquote; thorough tier adds a coverage-guided native go-fuzz campaign (FuzzLiteral) with the same oracle",
     "level_text": "Exploration: every generated template rendered exactly as the model prescribes and scanner/parser agreed on expression boundaries; one listed lexer finding is classified, not filtered.",
     "level_note": "Trusts strconv.Quote as the reference quoting and the segment model (derived from the property statement) as the reference rendering.",
     "design_ref": "DESIGN.md section 3 / C12",
@@ -89,7 +89,7 @@ PLAN["C14"] = {
     "assumptions": COMMON_ASSUMPTIONS + ["tree equality is judged through the exported accessors (PropertyType, PropertyKey, Operator, Value, Children)"],
 }
 MANIFEST_TEXT["C14"] = {
-    "technique": "property-based testing (rapid): grammar-based query generation with parse/print/parse round-trip oracle, programmatic-tree round trip, and escaping-injection differential against the intended tree",
+    "technique": "property-based testing (rapid): grammar-based query generation with parse/print/parse round-trip oracle, programmatic-tree round trip, and escaping-injection differential against the intended tree; thorough tier adds coverage-guided native go-fuzz campaigns (FuzzQuery, FuzzInjection) with the same oracles",
     "level_text": "Exploration: every generated query/tree/template round-tripped to a structurally identical query; the one listed lexer finding is classified only when the query is rejected (an accepted-but-altered parse is always a violation).",
     "level_note": "Trusts the harness's structural comparison through exported accessors and the mock resolver (7 fields, 2 flows, 3 groups).",
     "design_ref": "DESIGN.md section 3 / C14",
